@@ -13,7 +13,8 @@ for f in sorted(glob.glob("/verif/seeded/*/meta.json")):
     caught = next((l.strip() for l in lines if l.strip().startswith("assert=")), "")
     rows.append((m["id"], m["property"], (m.get("summary") or "").replace("\n", " ").replace("|", "/")[:260],
                  (m.get("needs_to_manifest") or "").replace("\n", " ").replace("|", "/")[:260],
-                 "yes" if r.get("confirmed") else "NO", "caught (exit 1)" if r.get("detected") else "MISSED (exit %s)" % r.get("check_exit"),
+                 "yes" if r.get("confirmed") else ("void at HEAD" if m.get("void") else "NO"),
+                 "caught (exit 1)" if r.get("detected") else ("- (%s)" % m["void"] if m.get("void") else "MISSED (exit %s)" % r.get("check_exit")),
                  caught.replace("|", "/")[:200], r.get("repo_commit", ""), r.get("check_wall_s")))
 with open("/verif/seeded/README.md", "w") as out:
     out.write("# Seeded changes\n\nEach folder: `patch.diff` (apply with `git -C /repo apply`), `demo.py` (exits 1 with the change, 0 without; "
@@ -23,8 +24,11 @@ with open("/verif/seeded/README.md", "w") as out:
     out.write("| id | change | needs to manifest | confirmed | quick check | first assertion that fires | /repo commit | s |\n|---|---|---|---|---|---|---|---|\n")
     for r in rows:
         out.write("| %s | %s | %s | %s | %s | %s | %s | %s |\n" % (r[0], r[2], r[3], r[4], r[5], r[6], r[7], r[8]))
-    n = len(rows); c = sum(1 for r in rows if r[5].startswith("caught"))
-    out.write("\n%d of %d seeded changes are caught by the quick tier.\n" % (c, n))
+    valid = [r for r in rows if not r[5].startswith("- (")]
+    n = len(valid); c = sum(1 for r in valid if r[5].startswith("caught"))
+    out.write("\n%d of %d seeded changes are caught by the quick tier" % (c, n))
+    missed = [r[0] for r in valid if not r[5].startswith("caught")]
+    out.write((" (not caught: %s)" % ", ".join(missed) if missed else "") + "; %d further change(s) are void at the current /repo HEAD.\n" % (len(rows) - n))
     out.write("\n## Behaviour-preserving refactorings (must stay green)\n\n")
     for name, m in green:
         out.write("* `%s`: %s. Result: %s.\n" % (name, m["summary"], m["what_i_ran"]["result"]))
